@@ -86,23 +86,39 @@ theorem never_panics {s : Sys} (h : Reachable s) (c : Cmd) : s.exec c ≠ .panic
       simp only [ha] at hex
       cases ho : s.objs.stepAll evs <;> simp [ho] at hex
 
-/-- The pre-save listener that maintains the published object sets accepts the events as well.
-Missing for the unrestricted statement (`RevokeOk`): a revocation request that names a class
-which is still `pending` (no certificate received yet, hence no object sets) – there the
-listener answers the certificate update with an error and the command is not stored
-(`revoke_for_pending_class_refused`; no panic, nothing changes). -/
-theorem listener_accepts_partial {s : Sys} {c : Cmd} {evs : List Ev} (h : Reachable s)
-    (hok : RevokeOk s.ca c) (hp : s.ca.process c = .ok evs) : ∃ o', s.objs.stepAll evs = .ok o' := by
+/-- The pre-save listener that maintains the published object sets accepts the events as well –
+for EVERY reachable state and EVERY command (full statement since fix 239f0a59: a revocation is
+executed only for a key that is in use in the class the request names, and such a class is past
+`pending`, so its object sets exist; before that fix a request naming a `pending` class made the
+listener fail – `pinned_revoke_for_pending_class_listener_error`). -/
+theorem listener_accepts {s : Sys} {c : Cmd} {evs : List Ev} (h : Reachable s)
+    (hp : s.ca.process c = .ok evs) : ∃ o', s.objs.stepAll evs = .ok o' := by
   have hinv := reachable_inv h
-  obtain ⟨s', hrun, _⟩ := readySeq_run hinv (process_readySeq hinv hok hp)
+  obtain ⟨s', hrun, _⟩ := readySeq_run hinv (process_readySeq_all hinv hp)
   obtain ⟨ca', o'⟩ := s'
   exact ⟨o', (runEvs_some_iff.mp hrun).2⟩
 
-/-- The corner `listener_accepts_partial` excludes: class 1 exists but is pending, the child
-(certified under class 0) names class 1 in a revocation request. -/
-theorem revoke_for_pending_class_refused :
-    ∃ s c, Reachable s ∧ s.exec c = .listenerError .missingClass ∧ s.next c = s :=
-  ⟨Sys.run {} pendingClassHistory, .childRevokeKey 7 1 6, reachable_run .init _, by decide, by decide⟩
+/-- Hence in a reachable state a command is refused or stored – never a panic, never a listener
+error. -/
+theorem exec_refused_or_stored {s : Sys} (h : Reachable s) (c : Cmd) :
+    (∃ e, s.exec c = .refused e) ∨ ∃ evs s', s.exec c = .stored evs s' := by
+  cases hp : s.ca.process c with
+  | error e => left; exact ⟨e, by simp [Sys.exec, hp]⟩
+  | ok evs =>
+    right
+    have hinv := reachable_inv h
+    obtain ⟨s', hrun, _⟩ := readySeq_run hinv (process_readySeq_all hinv hp)
+    exact ⟨evs, s', exec_stored_iff.mpr ⟨hp, hrun⟩⟩
+
+/-- The corner the partial statement used to exclude: class 1 exists but is pending, the child
+(certified under class 0) names class 1 in a revocation request.  Counter-model of the PINNED tree
+(before 239f0a59): the request was executed for class 1 and the listener failed (the command was
+not stored).  On the current tree it is refused by `process` (F-C03-3). -/
+theorem pinned_revoke_for_pending_class_listener_error :
+    let s := Sys.run {} pendingClassHistory
+    Reachable s ∧ s.pinnedExec (.childRevokeKey 7 1 6) = .listenerError .missingClass ∧
+    s.exec (.childRevokeKey 7 1 6) = .refused .noIssuedCert :=
+  ⟨reachable_run .init _, by decide, by decide⟩
 
 /-- Counter-model of the pinned tree (before 43d7eca0, F-C04-1): with the class test made on the
 child's name, a mapping to a class this CA does not have made `process` return
@@ -415,7 +431,9 @@ theorem revoke_removes_certificate {s s' : Sys} {ch : Handle} {childRcn : Rcn} {
       · split at hp
         · simp only [Except.ok.injEq] at hp; exact absurd hp.symm hne
         · cases hp
-      · simp only [Except.ok.injEq] at hp; subst hp
+      · split at hp
+        · cases hp
+        simp only [Except.ok.injEq] at hp; subst hp
         cases hrc : get s.ca.classes (cd.nameInParent childRcn) with
         | none => simp [hrc] at hcls
         | some rc =>
